@@ -19,8 +19,9 @@ import time
 VERIF = os.path.dirname(os.path.dirname(os.path.abspath(__file__)))
 REPO = os.environ.get("VERIF_REPO", "/repo")
 SPEC = os.path.join(VERIF, "spec")
-EVID = os.path.join(VERIF, "evidence")
-REPLAYS = os.path.join(VERIF, "replays")
+EVID = os.environ.get("VERIF_EVIDENCE") or os.path.join(VERIF, "evidence")
+REPLAYS = os.environ.get("VERIF_REPLAYS") or os.path.join(VERIF, "replays")
+EVID_DIR_ENV = os.environ.get("VERIF_EVIDENCE")
 FINDINGS = os.path.join(VERIF, "known_findings.json")
 
 # the repository is always imported from its *current working tree*
